@@ -418,7 +418,7 @@ def campaign(ctx):
         for _ in range(ctx.scale(3000, 0)):
             add("pair", s=label(rng.choice(d2w2), prefix="a"), o=label(rng.choice(d2w2), prefix="r"), tag="rand-d2w2")
     base = d2 + [random_tree(rng, 3, 3, 0.25) for _ in range(ctx.scale(300, 3000))]
-    for s in rng.sample(base, min(len(base), ctx.scale(900, 12000))):
+    for s in rng.sample(base, min(len(base), ctx.scale(700, 12000))):
         for tag, o in misfits(rng, s):
             none_at = frozenset(i for i in range(nleaves(o)) if rng.random() < 0.1)
             add("pair", s=label(s, prefix="a"), o=label(o, prefix="r", none_at=none_at), tag=tag)
